@@ -1,6 +1,6 @@
 #!/bin/bash
 # usage: tools/confirm_seed.sh <ID> <A|B>  -- confirms a sub-agent's mutation in its scratch worktree and files it under /verif/seeded
-ID=$1; X=$2; WT=/tmp/wt/$ID; OUT=$WT/_out
+ID=$1; X=$2; WT=${3:-/tmp/wt/$ID}; OUT=$WT/_out
 cd $WT || exit 9
 git checkout -q -- . ; git status --short | grep -v "_out" | grep -q . && { echo "$ID $X: worktree dirty"; exit 9; }
 /venv/bin/python _out/demo_$X.py > /tmp/confirm_${ID}_$X.pre 2>&1; pre=$?
@@ -12,10 +12,11 @@ echo "$ID $X: demo pristine exit=$pre, mutated exit=$post, suite: $suite"
 if [ $pre -eq 0 ] && [ $post -ne 0 ] && echo "$suite" | grep -q "5247 passed" && ! echo "$suite" | grep -q failed; then
   D=/verif/seeded/$ID-$X; mkdir -p $D
   cp $OUT/$X.diff $D/patch.diff; cp $OUT/demo_$X.py $D/demo.py
-  /venv/bin/python - "$ID" "$X" "$suite" "$D" <<'PY'
+  /venv/bin/python - "$ID" "$X" "$suite" "$D" "$OUT" <<'PY'
 import json,sys,re
-ID,X,suite,D=sys.argv[1:5]
-notes=open(f"/tmp/wt/{ID}/_out/notes.md").read()
+ID,X,suite,D,OUT=sys.argv[1:6]
+import os
+notes=open(OUT+"/notes.md").read() if os.path.exists(OUT+"/notes.md") else open(OUT+f"/notes_{X}.md").read()
 json.dump({"property":ID,"variant":X,"breaks":ID,"source":"independent sub-agent given only the property record and a scratch worktree",
  "needs_to_manifest":"see notes","notes_from_author":notes[:6000],
  "confirmed":{"pinned_suite_with_patch":suite.strip(),"demo_exit_pristine":0,"demo_exit_mutated":"non-zero","how":"tools/confirm_seed.sh: git apply in scratch worktree, tools/pinned.sh, demo before/after"}},
